@@ -1,5 +1,89 @@
+/-
+  C06 — closeness centrality equals its definition.
+
+  The implementation's values are compared on every run with `ccSpec` (Spec/Centrality.lean), which reads
+  *incoming* distances d(s, u) off the abstract graph.  The code obtains them on directed graphs by running
+  the search on `reverse()`; this file proves that this is the same thing (walk reversal), gives the closed
+  form of `get_node_centrality`, and bounds the specification.
+-/
 import GraphrsModel.ObsCen
+import GraphrsModel.Spec.Walk
+import GraphrsModel.Lemmas.C04Aux
 namespace Graphrs
-/-- placeholder while the framework is brought up: replaced by the property theorems -/
-theorem C06_bcScale_small (d : Bool) : bcScale 2 true d = none := rfl
+
+/-- the arcs of the reversed graph -/
+def Arcs.rev (arcs : Arcs) : Arcs := arcs.map fun a => (a.2.1, a.1, a.2.2)
+
+private theorem rev_rev (arcs : Arcs) : arcs.rev.rev = arcs := by
+  unfold Arcs.rev
+  rw [List.map_map]
+  conv => rhs; rw [← List.map_id arcs]
+  apply List.map_congr_left
+  intro a _
+  rfl
+
+private theorem walk_rev (arcs : Arcs) (s t : Nat) (c : Int) (h : Walk arcs s t c) : Walk arcs.rev t s c := by
+  induction h with
+  | nil => exact Walk.nil _
+  | snoc hw ha ih =>
+    rename_i u v c w
+    have hm : (v, u, w) ∈ arcs.rev := by
+      unfold Arcs.rev
+      rw [List.mem_map]
+      exact ⟨_, ha, rfl⟩
+    exact Walk.cons' hm ih
+
+/-- a walk from t to s in the reversed graph is a walk from s to t in the original, of the same cost -/
+theorem C06_reverse_walk (arcs : Arcs) (s t : Nat) (c : Int) : Walk arcs.rev t s c ↔ Walk arcs s t c := by
+  constructor
+  · intro h
+    have := walk_rev _ _ _ _ h
+    rw [rev_rev] at this
+    exact this
+  · exact walk_rev _ _ _ _
+
+/-- hence outgoing distances in `reverse()` are incoming distances in the graph -/
+theorem C06_reverse_dist (arcs : Arcs) (s t : Nat) (d : Int) : IsDist arcs.rev t s d ↔ IsDist arcs s t d := by
+  unfold IsDist
+  rw [C06_reverse_walk]
+  constructor
+  · intro h
+    exact ⟨h.1, fun c hw => h.2 c ((C06_reverse_walk arcs s t c).2 hw)⟩
+  · intro h
+    exact ⟨h.1, fun c hw => h.2 c ((C06_reverse_walk arcs s t c).1 hw)⟩
+
+/-- reversing the stored edges of a directed abstract graph reverses its arcs -/
+theorem C06_abs_reverse_arcs (a : Abs) (weighted : Bool) : a.reverse.arcs true weighted = (a.arcs true weighted).rev := by
+  unfold Abs.arcs Abs.reverse Arcs.rev
+  simp only [List.flatMap_map, List.map_flatMap]
+  congr 1
+  funext e
+  cases weighted <;> simp [Edge.reversed] <;> cases e.w <;> simp
+
+/-- `get_node_centrality` in closed form: (r-1)/tot, times (r-1)/(n-1) with the Wasserman-Faust flag; 0 when the
+    total distance is 0 or there is a single node -/
+theorem C06_nodeCentrality_closed_form (sp : List (Nat × Int)) (n : Nat) (wf : Bool) :
+    nodeCentrality sp n wf =
+      (if sumInt (sp.map (·.2)) > 0 ∧ n > 1 then
+         (((sp.length - 1 : Nat) : Rat) / ((sumInt (sp.map (·.2)) : Int) : Rat)) *
+           (if wf then ((sp.length - 1 : Nat) : Rat) / ((n - 1 : Nat) : Rat) else 1)
+       else 0) := by
+  unfold nodeCentrality
+  simp only [Bool.and_eq_true, decide_eq_true_eq]
+  cases wf <;> simp
+
+/-- one entry per node -/
+theorem C06_ccSpec_keys (nodes : List Nat) (arcs : Arcs) (wf : Bool) : (ccSpec nodes arcs wf).map (·.1) = nodes := by
+  unfold ccSpec
+  simp only [List.map_map]
+  conv => rhs; rw [← List.map_id nodes]
+  apply List.map_congr_left
+  intro u _
+  simp only [Function.comp]
+  split <;> rfl
+
+/-- non-vacuity: a directed path 1 -> 2 -> 3; node 3 is reached by 1 (distance 2) and 2 (distance 1) -/
+example : ccSpec [1, 2, 3] [(1, 2, 1), (2, 3, 1)] false = [(1, 0), (2, 1), (3, 2 / 3)] := by
+  decide +kernel
+
 end Graphrs
